@@ -342,7 +342,7 @@ func Join(toks []Tok, mode string, r *rand.Rand) string {
 					sb.WriteByte(' ')
 				}
 			case "wide":
-				ws := []string{" ", "  ", "\t", "\n", " \n "}
+				ws := []string{" ", "  ", "\t", "\n", " \n ", "\r", "\r\n", "\t\r "}
 				if r != nil {
 					sb.WriteString(ws[r.Intn(len(ws))])
 				} else {
